@@ -550,6 +550,10 @@ func isNamespace(t *doc.Type) bool {
 	if !ok {
 		return false
 	}
+	if isGenericType(id) {
+		// the generated code cannot name a generic type without instantiating it
+		return false
+	}
 	sel, ok := id.Type.(*ast.SelectorExpr)
 	if !ok {
 		return false
